@@ -1,4 +1,5 @@
 import CssVerif.Lemmas.Decl
+import CssVerif.Lemmas.DeclText
 import CssVerif.Gen.C10Names
 /-!
 # C10 — declaration blocks obey the ordered-multimap-with-cascade model
@@ -161,6 +162,32 @@ theorem iter_escaped_backslash_fixed :
     getProperty escWitness [97, 92, 103] true = none ∧ (getProperty escWitness escLit true).isSome = true := by
   decide
 
+/-- `getProperties(name, all=True)`: every entry with the normalised name (every entry when no name is given), in
+block order — for every block -/
+theorem getProperties_all_spec (seq : List Item) (name : Cps) :
+    getProperties seq name true =
+      ((props seq).filter (fun p => normalize name == [] || p.name == normalize name)).map some := by
+  unfold getProperties getPropertiesIdx
+  simp only [Bool.not_true, Bool.and_false, Bool.false_eq_true, if_false, List.map_map]
+  rw [← propIdxs_propAt]
+  apply List.map_congr_left
+  intro j _
+  rfl
+
+/-- `getProperties(name)` with a name (`all=False`): the effective entry of that name, or nothing -/
+theorem getProperties_named_spec (seq : List Item) (name : Cps) (hn : name ≠ []) (h : NameInv seq) :
+    getProperties seq name false = (effective (props seq) (normalize name)).toList.map some := by
+  have hb : (name != [] && !false) = true := by simp [hn]
+  have e : getProperties seq name false = (getProperty seq name true).toList.map some := by
+    unfold getProperties getPropertiesIdx getProperty
+    simp only [hb, if_true]
+    cases hi : getPropertyIdx seq name true with
+    | none => rfl
+    | some i =>
+      obtain ⟨p, hp, _⟩ := getPropertyIdx_some seq name true i hi
+      simp [hp]
+  rw [e, getProperty_spec seq name h]
+
 /-! ## T10.3 removal -/
 
 /-- T10.3 `removeProperty(name)` deletes every entry of the normalised name and nothing else, returns the effective
@@ -245,6 +272,39 @@ theorem set_spec (env : Env) (d : Decl) (name v prio : Cps) (newp : Pty) (h : Na
     simp only [hr, Bool.false_eq_true, if_false, hmk, hw, if_true]
     cases effective (props d.seq) (normalize name) <;> rfl
 
+/-- T10.4 (`normalize=False`): with an accepted new property the LAST entry whose literal name is `name` is modified
+in place — not the effective (`!important`) one among them, and no entry spelled differently; without such an entry
+the new one is appended (also when the block holds the property under another spelling) -/
+theorem set_literal_spec (env : Env) (d : Decl) (name v prio : Cps) (newp : Pty) (h : NameInv d.seq)
+    (hr : d.readonly = false) (hv : v ≠ []) (hmk : mkProperty env name v prio = .ok newp) (hw : newp.wf = true) :
+    props (setProperty env d name (some v) prio false true).st.seq =
+      (match lastP (fun q => q.lit == name) (props d.seq) with
+       | some _ => updLast (fun q => q.lit == name) (fun q => (updateProp env q newp).p) (props d.seq)
+       | none => props d.seq ++ [newp]) ∧
+    nonProps (setProperty env d name (some v) prio false true).st.seq = nonProps d.seq := by
+  have hh := setLit_refines env d name (some v) prio true h
+  refine ⟨?_, hh.2.2.2⟩
+  have := hh.1
+  unfold absD at this
+  have hps := congrArg Spec.ps this
+  simp only [] at hps
+  rw [hps]
+  unfold specSetLit
+  cases v with
+  | nil => exact absurd rfl hv
+  | cons c cs =>
+    simp only [hr, Bool.false_eq_true, if_false, hmk, hw, if_true]
+    cases lastP (fun q => q.lit == name) (props d.seq) <;> rfl
+
+/-- the difference to the default is real: in `c: 1 !important; c: 2` a literal update of `c` changes the second
+entry, the normalising update the first (effective) one -/
+example :
+    (props (setProperty exampleEnv { seq := renderWitness } [99] (some [51]) [] false true).st.seq).map (·.val.css)
+      = [[49], [51]] ∧
+    (props (setProperty exampleEnv { seq := renderWitness } [99] (some [51]) [] true true).st.seq).map (·.val.css)
+      = [[51], [50]] := by
+  decide
+
 /-- whatever `setProperty` does (update, append, removal for an empty value, rejection), comments and unknown rules
 of the block stay where they are -/
 theorem set_keeps_comments (env : Env) (d : Decl) (name : Cps) (value : Option Cps) (prio : Cps) (repl : Bool)
@@ -316,6 +376,7 @@ theorem step_refines (env : Env) (d : Decl) (c : Call) (h : NameInv d.seq) :
   | mk raising op =>
     cases op with
     | set n v p repl => exact ⟨(set_refines _ d n v p repl h).1, (set_refines _ d n v p repl h).2.1, (set_refines _ d n v p repl h).2.2.1⟩
+    | setLit n v p repl => exact ⟨(setLit_refines _ d n v p repl h).1, (setLit_refines _ d n v p repl h).2.1, (setLit_refines _ d n v p repl h).2.2.1⟩
     | setItem n v p => exact ⟨(set_refines _ d n v (p.getD []) true h).1, (set_refines _ d n v (p.getD []) true h).2.1, (set_refines _ d n v (p.getD []) true h).2.2.1⟩
     | remove n norm =>
       have := remove_refines d n norm h
@@ -328,7 +389,7 @@ theorem step_refines (env : Env) (d : Decl) (c : Call) (h : NameInv d.seq) :
       exact ⟨this.1, this.2, text_nameInv _ d items h⟩
     | setReadonly b => exact ⟨rfl, rfl, h⟩
 
-/-- T10.5 for every finite sequence of operations (set, add-duplicate, item assignment, removal, item deletion, text
+/-- T10.5 for every finite sequence of operations (set with `normalize` on or off, add-duplicate, item assignment, removal, item deletion, text
 replacement, read-only switches, each under either error mode) from any block satisfying the name invariant:
 the entry list and the outcomes of the model are exactly those of the ordered-multimap specification. -/
 theorem run_refines (env : Env) (d : Decl) (cs : List Call) (h : NameInv d.seq) :
@@ -456,12 +517,43 @@ theorem vars_run (env : Env) (s : Vars) (ops : List (Bool × VOp)) (h : VInv s) 
     | setText items => exact vSetCssText_inv s items h
     | setReadonly b => exact h
 
-/- `[(k, getVariableValue(k)) for k in keys()] = serialisation`, full statement for every history: FALSE by design of
-   the API for a key that is not a fixpoint of `normalize` (`getVariableValue` normalises the *listed* key once more);
-   it holds when the identifiers used are stable — the same residual as `getPropertyValue(keys()[i])`. -/
+/-- T10.7, the clause of the property statement ("its serialisation always listing exactly the variables the API
+reports") over ALL histories and ALL names, no guard: the API report
+`[(k, getVariableValue(requote(k))) for k in keys()]` — every listed key looked up by a literal spelling of it,
+`requote` doubling each backslash — equals the serialised (name, value) list, in order. (`keys()` lists *normalised*
+names and `getVariableValue` normalises its argument, so a listed key has to be written as a literal again before it
+is passed back; `normalize_requote` shows that `requote` is such a spelling for every normalised name.) -/
+theorem vars_run_reported (env : Env) (s : Vars) (ops : List (Bool × VOp)) (h : VInv s) :
+    vReportedQ (vrun env s ops) = vSerialized (vrun env s ops) ∧
+    ∀ k ∈ vKeys (vrun env s ops), normalize (requote k) = k := by
+  have hinv := (vars_run env s ops h).1
+  refine ⟨vReportedQ_eq _ hinv, ?_⟩
+  intro k hk
+  obtain ⟨e, he, hek⟩ := List.mem_map.mp hk
+  obtain ⟨n, hn⟩ := varsOf_keys_normal (vrun env s ops).seq e (by rw [← hinv.1]; exact he)
+  rw [← hek, hn]
+  exact normalize_requote n
 
-/-- … and when all identifiers are stable under `normalize`, looking every listed key up reports the serialisation -/
-theorem vars_run_reported_partial (env : Env) (s : Vars) (ops : List (Bool × VOp)) (h : VInv s) (hk : KeysStable s)
+/-- … in particular from the empty block -/
+theorem vars_run_reported_from_empty (env : Env) (ops : List (Bool × VOp)) :
+    vReportedQ (vrun env { vars := [], seq := [] } ops) = vSerialized (vrun env { vars := [], seq := [] } ops) :=
+  (vars_run_reported env _ ops vars_inv_empty).1
+
+/-- the same for the style block: looking a LISTED name up by its literal spelling finds the effective entry of that
+name — at every block satisfying the name invariant (every reachable one, `run_refines`) -/
+theorem listed_name_lookup (seq : List Item) (h : NameInv seq) (n : Cps) (hn : n ∈ keys seq) :
+    getProperty seq (requote n) true = effective (props seq) n ∧ (effective (props seq) n).isSome = true := by
+  obtain ⟨p, hp, hpn⟩ := (mem_nnames seq n).mp hn
+  have e : normalize (requote n) = n := by
+    rw [← hpn, h p hp]; exact normalize_requote p.lit
+  refine ⟨by rw [getProperty_spec seq _ h, e], ?_⟩
+  obtain ⟨x, hx⟩ := effectiveBy_isSome_of_mem (fun q => q.name == n) (props seq) p hp (by simp [hpn])
+  unfold effective
+  rw [hx]; rfl
+
+/-- the variant that passes the listed key back AS IT IS (`getVariableValue(k)`) holds when all identifiers are stable
+under `normalize` … -/
+theorem vars_run_reported_direct (env : Env) (s : Vars) (ops : List (Bool × VOp)) (h : VInv s) (hk : KeysStable s)
     (hst : ∀ o ∈ ops, VOpStable (withMode env o.1) o.2) :
     KeysStable (vrun env s ops) ∧ vReported (vrun env s ops) = vSerialized (vrun env s ops) := by
   suffices hh : KeysStable (vrun env s ops) from
@@ -482,6 +574,13 @@ theorem vars_run_reported_partial (env : Env) (s : Vars) (ops : List (Bool × VO
       exact ih _ (vSetCssText_inv s items h) (vSetCssText_keysStable s items hk ho) hrest
     | setReadonly b => exact ih _ h hk hrest
 
+/-- … and only then: for the block of `vars_escaped_backslash_fixed` (one variable `a\\g`) the key `a\g` passed back
+as it is finds nothing, while its literal spelling finds the value -/
+theorem vars_reported_direct_needs_guard :
+    vReported escVars = [([97, 92, 103], [])] ∧ vReportedQ escVars = [([97, 92, 103], [50])] ∧
+    vSerialized escVars = [([97, 92, 103], [50])] := by
+  decide
+
 /-- the former witness of the fixed finding in the variables block: `setVariable('a\\g','1'); setVariable('a\\g','2')`
 now leaves one item `a\\g` with the value `2`, key `a\g`, and the invariant holds -/
 theorem vars_escaped_backslash_fixed :
@@ -489,5 +588,234 @@ theorem vars_escaped_backslash_fixed :
     escVars.seq = [.var escLit ⟨[50], [50]⟩] ∧ VInv escVars := by
   refine ⟨by decide, by decide, by decide, ?_⟩
   exact vSet_inv _ _ _ _ (vSet_inv _ _ _ _ vars_inv_empty)
+
+/-! ## T10.8 `cssText` of both block kinds: the rendering lists exactly the entries
+
+Model: `Model/DeclText.lean` (`do_Property`, `do_css_CSSStyleDeclaration`, `do_css_CSSVariablesDeclaration` with
+`Out`), for EVERY setting of the serializer preferences these methods read (`SPrefs`) and every value serializer /
+validity oracle (`REnv`). `linesOf` / `lineOf` / `renderLines` / `vLines` (`Lemmas/DeclText.lean`) are the transparent
+reference renderings. -/
+
+/-- T10.8 (style block, layout): `style.cssText` is the lines of the written items joined by the line separator, no
+separator after the last line; a line is a comment, or `name: value [priority]` of one entry followed by `;` unless it
+is the last item and `omitLastSemicolon` is set (`lineOf`). For every block, every preference setting. -/
+theorem cssText_layout (pf : SPrefs) (re : REnv) (seq : List Item) :
+    cssTextP pf re seq = joinWith pf.lineSeparator (linesOf pf re pf.omitLastSemicolon (declSeqP pf seq)) := by
+  unfold cssTextP
+  rw [cssTextSep_joinWith]
+  simp
+
+/-- … and `getCssText(separator)` likewise with the given separator -/
+theorem getCssText_layout (pf : SPrefs) (re : REnv) (sep : Cps) (seq : List Item) :
+    cssTextSep pf re sep true seq = joinWith sep (linesOf pf re pf.omitLastSemicolon (declSeqP pf seq)) := by
+  rw [cssTextSep_joinWith]
+  simp
+
+/-- T10.8 (style block, `keepAllProperties` on — the default): every item of the block is written, in order; so the
+lines list every entry that has a text (a not well-formed one has none), duplicates included -/
+theorem cssText_all_entries (pf : SPrefs) (seq : List Item) (hk : pf.keepAllProperties = true) :
+    declSeqP pf seq = seq := by
+  simp [declSeqP, hk]
+
+/-- T10.8 (style block, `keepAllProperties` off): an entry is written iff it is the effective entry of its name —
+every written entry is the effective one of its name, every name of the block is written, exactly once, in block
+order, and comments stay -/
+theorem cssText_effective_entries (pf : SPrefs) (seq : List Item) (hk : pf.keepAllProperties = false) :
+    (∀ p ∈ props (declSeqP pf seq), effective (props seq) p.name = some p) ∧
+    (∀ n ∈ nnames seq, ∃ p ∈ props (declSeqP pf seq), p.name = n) ∧
+    ((props (declSeqP pf seq)).map (·.name)).Nodup ∧
+    (props (declSeqP pf seq)).Sublist (props seq) ∧
+    nonProps (declSeqP pf seq) = nonProps seq := by
+  rw [declSeqP_effective pf seq hk]
+  refine ⟨?_, ?_, keepBy_names_nodup (effectiveIdx seq) seq 0, props_keepBy_sublist _ _ _, nonProps_keepBy _ _ _⟩
+  · intro p hp
+    obtain ⟨j, hj, hq⟩ := mem_props_keepBy _ seq 0 p hp
+    simp only [Nat.zero_add, beq_iff_eq] at hq
+    rw [← effectiveOf_effective]
+    unfold effectiveOf
+    rw [hq]
+    simp [propAt, hj]
+  · intro n hn
+    obtain ⟨q, hq, hqn⟩ := (mem_nnames seq n).mp hn
+    obtain ⟨x, hx⟩ := effectiveBy_isSome_of_mem (fun r => r.name == n) (props seq) q hq (by simp [hqn])
+    have hx' : effectiveOf seq n = some x := by rw [effectiveOf_effective]; exact hx
+    unfold effectiveOf at hx'
+    cases hi : effectiveIdx seq n with
+    | none => rw [hi] at hx'; simp at hx'
+    | some i =>
+      rw [hi] at hx'
+      simp only [Option.bind_some] at hx'
+      obtain ⟨p', hp', hname⟩ := effectiveIdx_sound seq n i hi
+      rw [hx'] at hp'
+      simp only [Option.some.injEq] at hp'
+      subst hp'
+      refine ⟨x, props_keepBy_mem _ seq 0 i x (propAt_some seq i x hx') ?_, hname⟩
+      simp [hname, hi]
+
+/-- non-vacuity and a test of the layout on a concrete block (`c: 1 !important; c: 2` plus a comment) under the
+default preferences, with `keepAllProperties` off, and under the minifying settings -/
+example :
+    cssTextP SPrefs.default REnv.default renderWitness = cps "c: 1 !important;\n/*k*/\nc: 2" ∧
+    cssTextP { SPrefs.default with keepAllProperties := false } REnv.default renderWitness
+      = cps "c: 1 !important;\n/*k*/" ∧
+    cssTextP minifiedPrefs REnv.default renderWitness = cps "c:1 !important;c:2" := by
+  decide
+
+/-- T10.8 (variables block): for every block and every preference setting whose layout strings are white space
+(`LayoutWs`: the defaults, `useMinified`, …), the serialisation is — up to that layout white space — exactly its
+lines written one after the other: `name:value;` per variable (the last `;` omitted with `omitLastSemicolon`),
+comments in between (`renderLines`); and with `normalizedVarNames` the entries of these lines are `vSerialized`,
+i.e. (T10.7) exactly the variables the API reports. `Out.append`'s white-space bookkeeping (removal of a trailing
+blank, spacers, the blank between `/` and `*`, the indented `}`), `Out.value` and the final strip that keeps an
+escaped blank never add or drop anything else. -/
+theorem vars_cssText_entries (pf : SPrefs) (re : REnv) (il : Nat) (s : Vars) (hl : LayoutWs pf) :
+    stripWs (vCssTextP pf re il s) = stripWs (renderLines pf.omitLastSemicolon (vLines pf re s.seq)) ∧
+    (pf.normalizedVarNames = true → lineEntries (vLines pf REnv.default s.seq) = vSerialized s) := by
+  refine ⟨?_, lineEntries_vLines pf s⟩
+  rw [vCssTextP_content pf re il s hl, vContent_lines]
+
+/-- the hypothesis is satisfiable: the default and the minifying preferences have white-space layout strings;
+and the exact text of a concrete block -/
+example : LayoutWs SPrefs.default ∧ LayoutWs minifiedPrefs ∧
+    vCssTextP SPrefs.default REnv.default 1 escVars = cps "a\\g: 2" ∧
+    vCssTextP minifiedPrefs REnv.default 1 varsWitness = cps "x:1;y:2" ∧
+    vCssTextP SPrefs.default REnv.default 1 varsWitness = cps "x: 1;\n/*k*/ \n y: 2" := by
+  refine ⟨⟨by decide, by decide, by decide, by decide, by decide, by decide⟩,
+    ⟨by decide, by decide, by decide, by decide, by decide, by decide⟩, by decide, by decide, by decide⟩
+
+/-! ### … and reparses to them (item level)
+
+The splitting of a text into items is the block parser's (kernels C02 / C04), so the reparse is stated on the items the
+written text consists of: `srcOf` / `vSrcOf ∘ vWritten` (`Lemmas/DeclText.lean`). -/
+
+/-- a written property is `name` `:` `value field` `priority` — the three fields of the source item `srcOfItem`
+gives for it (the value field carries the spacer after the colon and the blank before the priority) -/
+theorem property_text_fields (pf : SPrefs) (re : REnv) (p : Pty) (h : propTextP pf re p ≠ []) :
+    propTextP pf re p = nameText pf p ++ [58] ++ valueField pf re p ++ prioText pf p :=
+  propTextP_fields pf re p h
+
+/-- under the default preferences an entry without comments in its name and priority is written
+`name: value` or `name: value !priority` with the NORMALISED priority (`defaultPropertyPriority`) and the lower-cased
+literal name (`keepAllProperties` keeps the literal name) -/
+theorem property_text_default (p : Pty) (hw : p.wf = true) (hn : p.nameSeq = [.str p.lit])
+    (hp : p.prioSeq = [] ∨ p.prioSeq = [.str [33], .str p.litPrio]) (hl : p.litPrio ≠ [33]) :
+    propTextP SPrefs.default REnv.default p =
+      p.lit ++ [58, 32] ++ p.val.css ++ (if p.prioSeq = [] then [] else 32 :: 33 :: p.prio) := by
+  have hl' : ¬ ([33] = p.litPrio) := fun h => hl h.symm
+  rcases hp with hp | hp
+  · simp [propTextP, SPrefs.default, REnv.default, hw, hn, hp, namePartText]
+  · simp [propTextP, SPrefs.default, REnv.default, hw, hn, hp, namePartText, prioPartTextP, hl']
+
+/-- T10.8 (style block, reparse): if the front end reads every written declaration back as the same entry
+(`ReparseOk`: a condition on tokenizer / value grammar, the parameters of the model), then assigning the written items
+to ANY writable block is accepted and leaves exactly the written entries — same (name, value, priority), same order,
+nothing dropped or added — and the written comments. With T10.8 above: all entries, or the effective one per name. -/
+theorem cssText_reparse (env : Env) (pf : SPrefs) (re : REnv) (seq : List Item) (d0 : Decl) (hr : d0.readonly = false)
+    (hok : ∀ p ∈ props (declSeqP pf seq), propTextP pf re p ≠ [] → ReparseOk env pf re p) :
+    (setCssText env d0 (srcOf pf re (declSeqP pf seq))).out = .ok () ∧
+    (props (setCssText env d0 (srcOf pf re (declSeqP pf seq))).st.seq).map entryKey =
+      ((props (declSeqP pf seq)).filter (fun p => propTextP pf re p != [])).map entryKey ∧
+    nonProps (setCssText env d0 (srcOf pf re (declSeqP pf seq))).st.seq = writtenComments pf (declSeqP pf seq) := by
+  obtain ⟨r, hfold, h1, h2⟩ := reparse_fold env pf re (declSeqP pf seq) [] hok
+  unfold setCssText
+  simp only [hr, Bool.false_eq_true, if_false, hfold]
+  exact ⟨trivial, by simpa [props] using h1, by simpa [nonProps] using h2⟩
+
+/-- the hypothesis is satisfiable (`c: 2` under the minifying preferences, example front end) -/
+example : ∀ p ∈ props (declSeqP minifiedPrefs reparseWitness), propTextP minifiedPrefs REnv.default p ≠ [] →
+    ReparseOk exampleEnv minifiedPrefs REnv.default p := by
+  intro p hp _
+  have : p = { wf := true, nameSeq := [.str [99]], lit := [99], name := [99], val := ⟨[50], [50]⟩,
+               prioSeq := [], litPrio := [], prio := [] } := by
+    simpa [declSeqP, minifiedPrefs, reparseWitness, props] using hp
+  subst this
+  exact ⟨_, rfl, by decide, by decide⟩
+
+/-- … and for entries without comments in name and priority (`PlainEntry`) the condition follows from three facts about
+the front end on the written fields (`FrontEndReads`: the written name is one IDENT token, the value field parses to
+the stored value, the written priority is `!` + IDENT), plus — when the normalised name is written
+(`defaultPropertyName` without `keepAllProperties`) — the name being stable under `normalize` -/
+theorem cssText_reparse_plain (env : Env) (pf : SPrefs) (re : REnv) (seq : List Item) (d0 : Decl)
+    (hr : d0.readonly = false)
+    (hplain : ∀ p ∈ props (declSeqP pf seq), propTextP pf re p ≠ [] → PlainEntry p ∧ FrontEndReads env pf re p ∧
+      ((pf.defaultPropertyName && !pf.keepAllProperties) = true → normalize p.name = p.name)) :
+    (props (setCssText env d0 (srcOf pf re (declSeqP pf seq))).st.seq).map entryKey =
+      ((props (declSeqP pf seq)).filter (fun p => propTextP pf re p != [])).map entryKey :=
+  (cssText_reparse env pf re seq d0 hr (fun p hp ht =>
+    reparseOk_plain env pf re p (hplain p hp ht).1 (hplain p hp ht).2.1 (hplain p hp ht).2.2)).2.1
+
+/-- the hypotheses are satisfiable together (`c: 2`, minifying preferences, example front end) -/
+example : ∀ p ∈ props (declSeqP minifiedPrefs reparseWitness), propTextP minifiedPrefs REnv.default p ≠ [] →
+    PlainEntry p ∧ FrontEndReads exampleEnv minifiedPrefs REnv.default p ∧
+      ((minifiedPrefs.defaultPropertyName && !minifiedPrefs.keepAllProperties) = true → normalize p.name = p.name) := by
+  intro p hp _
+  have : p = { wf := true, nameSeq := [.str [99]], lit := [99], name := [99], val := ⟨[50], [50]⟩,
+               prioSeq := [], litPrio := [], prio := [] } := by
+    simpa [declSeqP, minifiedPrefs, reparseWitness, props] using hp
+  subst this
+  exact ⟨⟨rfl, rfl, by decide, by decide, by decide, Or.inl ⟨rfl, rfl⟩⟩,
+    ⟨by decide, by decide, by decide, fun h => absurd rfl h⟩, fun _ => by decide⟩
+
+/-- T10.8 (variables block, reparse): for every block satisfying the invariant (every reachable one, `vars_run`),
+assigning the item sequence of the written block (`vWritten`: names as written, comments when kept) to ANY writable
+block is accepted and yields the written items; it denotes the same variables — always with literal names, and with
+`normalizedVarNames` whenever the keys are stable under `normalize` (a key that is not, e.g. `a\g`, is WRITTEN as the
+different identifier `ag`: the residual of listing normalised names, see `vars_reported_direct_needs_guard`). -/
+theorem vars_reparse (pf : SPrefs) (s s0 : Vars) (h : VInv s) (hr : s0.readonly = false)
+    (hk : pf.normalizedVarNames = true → KeysStable s) :
+    (vSetCssText s0 (vSrcOf (vWritten pf s.seq))).out = .ok () ∧
+    (vSetCssText s0 (vSrcOf (vWritten pf s.seq))).st.seq = vWritten pf s.seq ∧
+    (vSetCssText s0 (vSrcOf (vWritten pf s.seq))).st.vars = s.vars ∧
+    vSerialized (vSetCssText s0 (vSrcOf (vWritten pf s.seq))).st = vSerialized s := by
+  have hw : varsOf (vWritten pf s.seq) = varsOf s.seq := by
+    apply varsOf_vWritten
+    intro hp e he
+    exact hk hp e.1 (by rw [vKeys, h.1]; exact List.mem_map_of_mem he)
+  obtain ⟨b, hb, h1, h2⟩ := vReparse_fold (vWritten pf s.seq) {} (by
+    simp only [List.nil_append, hw, ← h.1]; exact h.2)
+  have e : vSetCssText s0 (vSrcOf (vWritten pf s.seq)) = ⟨{ s0 with seq := b.seq, vars := b.vars }, .ok ()⟩ := by
+    unfold vSetCssText
+    simp only [hr, Bool.false_eq_true, if_false, hb]
+  rw [e]
+  simp only [List.nil_append] at h1 h2
+  refine ⟨rfl, h1, by rw [h2, hw, h.1], ?_⟩
+  rw [vSerialized_eq, vSerialized_eq]
+  simp only [h1, hw]
+
+/-- T10.8 (variables block, exact text under the default preferences): a block of variables only whose written names
+and value texts are ordinary words (`Solid`: not empty, no white space at the ends, none of the punctuation strings
+`Out.append` reacts to) is written `name: value` per variable, joined by `;` and a line break — white space included -/
+theorem vars_cssText_exact_default (re : REnv) (il : Nat) (s : Vars) (hne : s.seq ≠ []) (hs : SolidVars re s.seq) :
+    vCssTextP SPrefs.default re il s = vBody re s.seq :=
+  vCssTextP_exact_default re il s hne hs
+
+/-- satisfiable: `x: 1; y: 2` -/
+example : solidWitness.seq ≠ [] ∧ SolidVars REnv.default solidWitness.seq ∧
+    vBody REnv.default solidWitness.seq = cps "x: 1;\ny: 2" := by
+  refine ⟨by decide, ⟨?_, ?_, ?_, ?_, trivial⟩, by decide⟩ <;>
+    exact solid_single _ (by decide) (by decide) (by decide) (by decide) (by decide)
+
+/-! ## T10.6 (continued) attribute-style access
+
+Model: `Model/DeclAttr.lean` — the generated properties as a table from the regenerated names, `getattr` / `setattr` /
+`delattr` through `_getP` / `_setP` / `_delP`. -/
+
+/-- T10.6 for every known property name `n`: the attribute `_toDOMname(n)` exists, its accessors use exactly `n`, and
+reading, assigning and deleting it are `getPropertyValue(n)`, `setProperty(n, value)` and `removeProperty(n)` — at
+every block -/
+theorem attr_access_is_css_access (env : Env) (d : Decl) (value : Option Cps) :
+    ∀ n ∈ CssVerif.Gen.C10.propertyNames,
+      attrCss (toDOM n) = some n ∧
+      attrGet d.seq (toDOM n) = some (getPropertyValue d.seq n true) ∧
+      attrSet env d (toDOM n) value = some (setProperty env d n value [] true true) ∧
+      attrDel d (toDOM n) = some (removeProperty d n true) := by
+  intro n hn
+  have h := attrCss_known dom_names_roundtrip n hn
+  simp [attrGet, attrSet, attrDel, h]
+
+/-- a name that is not the DOM name of a known property has no attribute (`AttributeError`) -/
+theorem attr_unknown : attrCss (cps "fooBar") = none ∧ attrCss (cps "font-style") = none ∧
+    attrCss (cps "fontStyle") = some (cps "font-style") := by
+  decide +kernel
 
 end CssVerif.C10
